@@ -105,7 +105,9 @@ func verifDefine() {
 // VerifC15Foreach: `emit -> foreach v { out "<$v>" }` prints <element> once per element, in order.
 func VerifC15Foreach() {
 	verifDefine()
-	dt := verifTypes[rt.Choice("type", len(verifTypes))]
+	// str and generic only: foreach unmarshals every jsonl element with encoding/json
+	// (reflection codec on symbolic bytes: outside the engine)
+	dt := verifTypes[rt.Choice("type", 2)]
 	k := rt.Choice("count", rt.Param("k")+1)
 	list := verifList(dt, k, rt.Param("n"))
 	verifEmit.dt, verifEmit.list = dt, list
